@@ -780,8 +780,48 @@ Proof.
     cbn [w_reg] in T1, T2 |- *. lia.
 Qed.
 
+(** *** what [Clone for Node] copies: [cloned_slots ss] is [ss] itself or the
+    slots of a detached node (all empty) *)
+Lemma cloned_slots_cases ss : cloned_slots ss = ss \/ cloned_slots ss = empty_slots.
+Proof. unfold cloned_slots. destruct (clone_detached ss); [right|left]; reflexivity. Qed.
+
+Lemma in_empty_slots sl : In sl empty_slots -> sl = SEmpty.
+Proof. unfold empty_slots. intros H. apply repeat_spec in H. exact H. Qed.
+
+Lemma cloned_slots_in ss sl : In sl (cloned_slots ss) -> In sl ss \/ sl = SEmpty.
+Proof.
+  destruct (cloned_slots_cases ss) as [->| ->]; intros H; [left; exact H|right; apply in_empty_slots; exact H].
+Qed.
+
+Lemma cloned_slots_in_strong ss x : In (SStrong x) (cloned_slots ss) -> In (SStrong x) ss.
+Proof. intros H. apply cloned_slots_in in H as [H|H]; [exact H|discriminate]. Qed.
+
+Lemma cloned_slots_in_weak ss x : In (SWeak (Some x)) (cloned_slots ss) -> In (SWeak (Some x)) ss.
+Proof. intros H. apply cloned_slots_in in H as [H|H]; [exact H|discriminate]. Qed.
+
+Lemma cloned_slots_length ss : (length (cloned_slots ss) <= Nat.max (length ss) NSLOTS)%nat.
+Proof.
+  destruct (cloned_slots_cases ss) as [->| ->]; [lia|].
+  unfold empty_slots. rewrite repeat_length. lia.
+Qed.
+
+Lemma total_empty_slots (f : slot -> N) : f SEmpty = 0 -> total f empty_slots = 0.
+Proof. intros H. unfold empty_slots. apply total_repeat. exact H. Qed.
+
+Lemma cloned_slots_total (f : slot -> N) ss : f SEmpty = 0 ->
+  total f (cloned_slots ss) = total f ss \/ total f (cloned_slots ss) = 0.
+Proof.
+  intros H. destruct (cloned_slots_cases ss) as [->| ->]; [left; reflexivity|right].
+  apply total_empty_slots. exact H.
+Qed.
+
+Lemma cloned_slots_total_le (f : slot -> N) ss : f SEmpty = 0 ->
+  total f (cloned_slots ss) <= total f ss.
+Proof. intros H. destruct (cloned_slots_total f ss H) as [E|E]; rewrite E; lia. Qed.
+
 (** (iii) other strong handles exist: the value is cloned ([Clone for Node]
-    clones every handle it holds: the counters of their targets grow, or the
+    clones every handle it chooses to copy — all of them, or none when the
+    clone is a detached node: the counters of their targets grow, or the
     process aborts on a handle to a dead object), the clone is put into a fresh
     allocation which the caller's handle now names, and the old handle is
     dropped ([Rc::drop] runs next). *)
@@ -789,34 +829,47 @@ Lemma make_mut_clone_core s self pc k r o b p :
   Inv s (ctx self pc k) -> reg_get s r = RStrong o -> getb (heap_of s) o = Ok b ->
   value b = Some p ->
   act_post_strict self pc k
-    (lift s self (clone_slots (heap_of s) (slots p))
+    (lift s self (clone_slots (heap_of s) (cloned_slots (slots p)))
        (fun s1 =>
           AO (set_reg (set_heap s1 (heap_of s1 ++
-                 [new_box {| pid := length (heap_of s); slots := slots p; script := [] |}]))
+                 [new_box {| pid := length (heap_of s); slots := cloned_slots (slots p); script := [] |}]))
                 r (RStrong (length (heap_of s))))
              self RUnit [FDropStrong o])).
 Proof.
   intros HI Er Hg Ev.
-  set (p' := {| pid := length (heap_of s); slots := slots p; script := [] |}).
+  set (cs := cloned_slots (slots p)).
+  set (p' := {| pid := length (heap_of s); slots := cs; script := [] |}).
   pose proof (getb_ok _ _ _ Hg) as [Hb Hfr].
   pose proof (release_strong_reg s self pc k r o HI (or_introl Er)) as HIA.
   assert (Hr : nth_error (regs s) r = Some (RStrong o)).
   { rewrite <- Er. apply reg_get_some. rewrite Er. discriminate. }
-  assert (Hacc : forall x, In (SStrong x) (slots p) \/ In (SWeak (Some x)) (slots p) ->
+  (* the handles the clone copies are handles of the value *)
+  assert (HinS : forall x, In (SStrong x) cs -> In (SStrong x) (slots p))
+    by (intros x; apply cloned_slots_in_strong).
+  assert (HinW : forall x, In (SWeak (Some x)) cs -> In (SWeak (Some x)) (slots p))
+    by (intros x; apply cloned_slots_in_weak).
+  assert (HleS : forall y, total (sw_strong y) cs <= total (sw_strong y) (slots p))
+    by (intros y; apply cloned_slots_total_le; reflexivity).
+  assert (HleW : forall y, total (sw_weak y) cs <= total (sw_weak y) (slots p))
+    by (intros y; apply cloned_slots_total_le; reflexivity).
+  clearbody cs.
+  assert (Hacc : forall x, In (SStrong x) cs \/ In (SWeak (Some x)) cs ->
             exists bx, getb (heap_of s) x = Ok bx).
   { intros x [Hx|Hx].
-    - destruct (inv_held_live s _ HI x) as (bx & Gx & _); [|exists bx; exact Gx].
+    - apply HinS in Hx.
+      destruct (inv_held_live s _ HI x) as (bx & Gx & _); [|exists bx; exact Gx].
       pose proof (box_slots_le (sw_strong x) s o b p Hb Ev) as H1.
       pose proof (total_in_le (sw_strong x) _ _ Hx) as H2. rewrite sw_strong_self in H2. lia.
-    - apply (inv_weak_token s _ HI x).
+    - apply HinW in Hx.
+      apply (inv_weak_token s _ HI x).
       pose proof (box_slots_le (sw_weak x) s o b p Hb Ev) as H1.
       pose proof (total_in_le (sw_weak x) _ _ Hx) as H2. rewrite sw_weak_self in H2.
       unfold W. lia. }
-  destruct (clone_slots_spec (slots p) (heap_of s) Hacc) as [Hab|(h' & Hok & Hlen & Hall)];
+  destruct (clone_slots_spec cs (heap_of s) Hacc) as [Hab|(h' & Hok & Hlen & Hall)];
     unfold lift.
   { (* [Clone for Node] cannot abort: the handles of a live value are not dangling *)
-    exfalso. destruct (clone_slots_ok (slots p) (heap_of s)) as (h' & Hok).
-    - intros x Hx. apply (inv_held_live s _ HI x).
+    exfalso. destruct (clone_slots_ok cs (heap_of s)) as (h' & Hok).
+    - intros x Hx. apply HinS in Hx. apply (inv_held_live s _ HI x).
       pose proof (box_slots_le (sw_strong x) s o b p Hb Ev) as H1.
       pose proof (total_in_le (sw_strong x) _ _ Hx) as H2. rewrite sw_strong_self in H2. lia.
     - intros x Hx. destruct (Hacc x (or_intror Hx)) as (bx & Gx). exists bx. split; [exact Gx|].
@@ -825,7 +878,7 @@ Proof.
   rewrite Hok. cbn [act_post_strict app heap_of set_heap mk]. split; [tauto|].
   apply (Inv_alloc_gen (mk h' (upd (regs s) r REmpty ++ [RLoose p']) (log s)) _ _ p').
   - apply (Inv_bump_many (set_reg s r REmpty) _ _
-             (fun y => total (sw_strong y) (slots p)) (fun y => total (sw_weak y) (slots p)) HIA).
+             (fun y => total (sw_strong y) cs) (fun y => total (sw_weak y) cs) HIA).
     + reflexivity.
     + exact Hlen.
     + intros y by_ Hy. destruct (Hall y by_ Hy) as (b' & Hb' & Hbump & Hw & Hs).
@@ -841,9 +894,11 @@ Proof.
       * intros i a a' Ha Ha'. destruct (Hall i a Ha) as (a2 & Ha2 & (_ & _ & Hva & _) & _).
         assert (a2 = a') as -> by congruence. unfold w_box. rewrite Hva. reflexivity.
     + intros y Hy. cbn [heap_of set_reg mk]. apply (inv_nd s _ HI y).
-      pose proof (box_slots_le (sw_strong y) s o b p Hb Ev) as H1. lia.
+      pose proof (box_slots_le (sw_strong y) s o b p Hb Ev) as H1.
+      pose proof (HleS y) as H2. lia.
     + intros y Hy. cbn [heap_of set_reg mk].
       pose proof (box_slots_le (sw_weak y) s o b p Hb Ev) as H1.
+      pose proof (HleW y) as H2.
       destruct (nth_error (heap_of s) y) as [by_|] eqn:Hby.
       * exists by_. split; [reflexivity|]. rewrite (ci_weak s _ (inv_cnt s _ HI) y by_ Hby). unfold W. lia.
       * destruct (ci_range s _ (inv_cnt s _ HI) y Hby) as (_ & E & _). unfold W in E. lia.
@@ -872,10 +927,10 @@ Proof.
   destruct (value b) as [p|] eqn:Ev; [clear Hv|congruence].
   destruct (strong b) as [n|] eqn:Hs; [|rewrite (live_uninit b Hs) in Hl; discriminate].
   assert (Hclone : act_post_strict self pc k
-    (lift s self (clone_slots (heap_of s) (slots p))
+    (lift s self (clone_slots (heap_of s) (cloned_slots (slots p)))
        (fun s1 =>
           AO (set_reg (set_heap s1 (heap_of s1 ++
-                 [new_box {| pid := length (heap_of s); slots := slots p; script := [] |}]))
+                 [new_box {| pid := length (heap_of s); slots := cloned_slots (slots p); script := [] |}]))
                 r (RStrong (length (heap_of s))))
              self RUnit [FDropStrong o]))).
   { apply (make_mut_clone_core s self pc k r o b p); assumption. }
